@@ -230,6 +230,10 @@ def judge(r, sc, msg, env, uid, uidclass, rc, pid, t0, t1, events, mode, expect_
     fm = [i for i, e in enumerate(events) if e["call"] == "M"]
     if fm and (not al or al[0] > fm[0]):
         return "no alarm() armed before the first mutating call", reached, {}
+    if len([i for i in al if int(events[i]["a"][0]) > 0]) > 1:
+        # the collection of leftovers after 36 hours rests on an injector being dead by then: its life is bounded by ONE timer set at the
+        # start; a timer that is set again later (on every read, say) lets a slow injection outlive the limit (added after seeded change C01-L)
+        return "death timer armed %d times (alarm(%s)): the injector's lifetime is no longer bounded by the first one" % (len(al), ", ".join(events[i]["a"][0] for i in al[:4])), reached, {}
     if al:
         secs = int(events[al[0]]["a"][0])
         if r.ossified and not (0 < secs < r.ossified):
